@@ -49,7 +49,7 @@ func main() {
 	case "C11":
 		checkC11(c)
 	case "C20":
-		checkC20(c)
+		c.Isolated(func() { checkC20(c) }) // child process: an unrecoverable crash is a violation, not a dead check
 	}
 	os.Exit(c.Finish())
 }
